@@ -52,6 +52,9 @@ class SymEnv(dict):
 
     def __missing__(self, n):
         kind, lo, hi = self.sk.get("vars", {}).get(n, ("int", 0, T_MAX))
+        if kind == "int" and lo is not None and lo == hi:
+            self[n] = lo            # a variable pinned to one value is that value (no solver variable)
+            return lo
         if kind == "int":
             v = self.ex.int(n, lo, hi)
         elif kind == "real":
@@ -71,7 +74,7 @@ def sym_env(ex, sk):
 def model_env(sk, model):
     """concrete environment from a solver model (ints stay ints, rationals become Fractions->float when exact)."""
     from fractions import Fraction
-    env = {}
+    env = {n: b[1] for n, b in (sk.get("vars") or {}).items() if b[0] == "int" and b[1] is not None and b[1] == b[2]}
     for n, v in model.items():
         if isinstance(v, str) and "/" in v:
             f = Fraction(v)
